@@ -28,9 +28,9 @@ FINISH = dict(
         "(real config::from_file + MainEventLoop::new, resolved hook lists and env tables)",
         "py/hookrec.py recorder child process (argv, stdin, VT_* environment, snapshots, lock file), "
         "py/mockca.py mock ACME CA sharing the recorder's monotonic clock",
-        "modelled, not verified: minijinja rendering (only `{{ var }}`, `env.KEY` and `join` are exercised and "
-        "compared with the chosen values), async_process spawn/wait, the transcription of the man page's "
-        "variable table (Hooks.documentedVars)",
+        "modelled, not verified: minijinja rendering (`{{ var }}`, `env.KEY`, `join`, `{% if %}`, `{% for %}`, `| length`, `not` are exercised and "
+        "compared with the chosen values), async_process spawn/wait, the man page's variable table is "
+        "extracted on every run (Gen/ManVars.lean, documented_vars_are_the_manuals)",
     ],
     rule="(1) hook lists for the real hooks::call: 0..8 recorder hooks (duplicates allowed), 1..3 types each, "
          "exit 0 / non-zero / killed by a signal / unspawnable command / broken template / missing stdin file, "
